@@ -974,6 +974,13 @@ func (s *runtimeState) loadAuth(compiled config.Compiled) error {
 	}
 
 	s.mu.Lock()
+	// Replay protection must survive a reload: keep the nonces each route has
+	// already honoured.
+	for routePath, auth := range hmacByRoute {
+		if auth != nil {
+			auth.InheritReplayState(s.hmacByRoute[routePath])
+		}
+	}
 	s.pullAuthorize = pullapi.BearerTokenAuthorizer(tokens)
 	s.workerAuthorize = workerapi.BearerTokenAuthorizer(tokens)
 	s.adminAuthorize = admin.BearerTokenAuthorizer(adminTokens)
